@@ -31,7 +31,7 @@ def unit_cnt(tier):
         hyp_extra = []
         if name == "point_update":
             hyp_extra = [lemmas["frame"](A, n - 1)]
-        if name in ("n_gives_all_true",):
+        if name in ("n_gives_all_true", "witness_gives_positive"):
             hyp_extra = [lemmas["bounds"](A, n - 1)]
         for part, pc in (("base", [n <= 0]), ("step", [n > 0, L(A, n - 1)] + hyp_extra)):
             r = solve_one({"name": f"cnt.{name}.{part}", "pc": pc, "goal": L(A, n), "meta": {}}, timeout_ms=20000)
